@@ -43,7 +43,7 @@ int main(int argc,char**argv){
       if(!T[i].insys){ T[i].insys=1;
         if(T[i].tgid==maintg){ long nr=r.orig_rax; char p1[4096]="",p2[4096]=""; const char*nm=NULL; int mut=0;
           switch(nr){
-            case SYS_openat: { int fl=r.rdx; rdstr(tid,r.rsi,p1,sizeof p1); if((fl&(O_CREAT|O_TRUNC)) || ((fl&O_ACCMODE)!=O_RDONLY)){ if(strncmp(p1,"/dev/",5)&&strncmp(p1,"/proc/",6)&&strncmp(p1,"/sys/",5)){mut=1; nm=(fl&O_EXCL)?"create_excl":(fl&O_TRUNC)?"create_trunc":"open_w";} } break; }
+            case SYS_openat: { int fl=r.rdx; rdstr(tid,r.rsi,p1,sizeof p1); if((fl&(O_CREAT|O_TRUNC)) || ((fl&O_ACCMODE)!=O_RDONLY)){ if((strncmp(p1,"/dev/",5)||!strncmp(p1,"/dev/shm/",9))&&strncmp(p1,"/proc/",6)&&strncmp(p1,"/sys/",5)){mut=1; nm=(fl&O_EXCL)?"create_excl":(fl&O_TRUNC)?"create_trunc":"open_w";} } break; }
             case SYS_renameat: case SYS_renameat2: rdstr(tid,r.rsi,p1,sizeof p1); rdstr(tid,r.r10,p2,sizeof p2); mut=1; nm="rename"; break;
             case SYS_unlinkat: rdstr(tid,r.rsi,p1,sizeof p1); mut=1; nm=(r.rdx&AT_REMOVEDIR)?"rmdir":"unlink"; break;
             case SYS_mkdirat: rdstr(tid,r.rsi,p1,sizeof p1); mut=1; nm="mkdir"; break;
@@ -52,7 +52,7 @@ int main(int argc,char**argv){
             case SYS_fchmodat: rdstr(tid,r.rsi,p1,sizeof p1); snprintf(p2,sizeof p2,"%lo",(unsigned long)r.rdx); mut=1; nm="chmod"; break;
             case SYS_fchmod: fdpath(tid,r.rdi,p1,sizeof p1); snprintf(p2,sizeof p2,"%lo",(unsigned long)r.rsi); mut=1; nm="chmod"; break;
             case SYS_ftruncate: fdpath(tid,r.rdi,p1,sizeof p1); mut=1; nm="ftruncate"; break;
-            case SYS_write: case SYS_pwrite64: { fdpath(tid,r.rdi,p1,sizeof p1); if(p1[0]=='/' && strncmp(p1,"/dev/",5) && strncmp(p1,"/proc/",6)){ snprintf(p2,sizeof p2,"%lu",(unsigned long)r.rdx); mut=1; nm="write"; } break; }
+            case SYS_write: case SYS_pwrite64: { fdpath(tid,r.rdi,p1,sizeof p1); if(p1[0]=='/' && (strncmp(p1,"/dev/",5)||!strncmp(p1,"/dev/shm/",9)) && strncmp(p1,"/proc/",6)){ snprintf(p2,sizeof p2,"%lu",(unsigned long)r.rdx); mut=1; nm="write"; } break; }
           }
           if(mut){ count++; fprintf(lg,"%ld\t%s\t%s\t%s\n",count,nm,p1,p2); fflush(lg);
             if(count==K){ fprintf(lg,"KILL at %ld\n",count); fflush(lg); kill(child,SIGKILL); /* whole thread group */ }
